@@ -236,7 +236,10 @@ def document(input_file: str, settings: Settings):
                 for subdir in copy.copy(subdirs):
                     logger.debug(f"Checking filenames in subdir {subdir}")
                     for filename in os.scandir(os.path.join(root, subdir)):
-                        if filename.is_file() and filename.path.endswith(".cmake"):
+                        # Excluded files do not count, otherwise the subdir would be listed
+                        # in the toctree and then skipped when it is walked
+                        if filename.is_file() and filename.path.endswith(".cmake") \
+                                and not spec.match_file(filename.path):
                             break
                     # If we exited loop normally, i.e. a .cmake file was not
                     # found
